@@ -390,15 +390,131 @@ impl Part for Histories {
     }
 }
 
-crate::declare_parts!(Histories);
+
+// ------------------------------------------------------------------ values that outlive their render
+
+/// A macro (or an imported module's macro) taken out of a finished render through
+/// `render_captured(..).state()` and used in later renders: whatever the engine does with such a
+/// value, it does the same on every thread and whatever that thread rendered before ("the same
+/// template and context give the same result every time and from any number of threads").
+#[derive(Clone, Debug, Serialize, Deserialize)]
+pub struct EscapeCase {
+    /// renders done on thread A before the capturing render
+    pub a: u8,
+    /// renders done on the fresh thread B before it uses the value
+    pub b: u8,
+    /// renders done on thread A between capturing and using the value
+    pub c: u8,
+    /// 0 = a macro of the template, 1 = a macro of a module the template imported, 2 = a namespace
+    pub what: u8,
+}
+
+pub struct EscapedValues;
+
+fn escape_env() -> Environment<'static> {
+    let mut env = Environment::new();
+    env.add_template("t", "{% import 'lib' as lib %}{% macro hello(n) %}Hello {{ n }}{{ suffix }}{% endmacro %}{% set suffix = '!' %}{% set ns = namespace(k='K') %}{{ hello('x') }}").unwrap();
+    env.add_template("lib", "{% set greeting = 'Hi' %}{% macro greet(n) %}{{ greeting }} {{ n }}{% endmacro %}").unwrap();
+    env.add_template("use", "[{{ v('Bob') if v is callable else v.k }}]").unwrap();
+    env.add_template("warm", "{% macro w() %}w{% endmacro %}{{ w() }}").unwrap();
+    env
+}
+
+fn use_value(env: &Environment<'static>, v: &Value) -> String {
+    match env.get_template("use").and_then(|t| t.render(Value::from_pairs([("v", v.clone())]))) {
+        Ok(s) => format!("ok:{s}"),
+        Err(e) => format!("err:{:?}:{}", e.kind(), e.detail().unwrap_or("")),
+    }
+}
+
+impl Part for EscapedValues {
+    type Case = EscapeCase;
+    const NAME: &'static str = "values_outliving_their_render";
+
+    fn strategy(_tier: Tier) -> BoxedStrategy<EscapeCase> {
+        (0u8..4, 0u8..4, 0u8..3, 0u8..3).prop_map(|(a, b, c, what)| EscapeCase { a, b, c, what }).boxed()
+    }
+
+    fn enumeration(_tier: Tier) -> Vec<EscapeCase> {
+        let mut out = vec![];
+        for a in 0..4u8 {
+            for b in 0..4u8 {
+                for c in 0..3u8 {
+                    for what in 0..3u8 {
+                        out.push(EscapeCase { a, b, c, what });
+                    }
+                }
+            }
+        }
+        out
+    }
+
+    fn check(case: &EscapeCase) -> Verdict {
+        let env = Arc::new(escape_env());
+        let warm = |env: &Environment<'static>, n: u8| {
+            for _ in 0..n {
+                let _ = env.get_template("warm").unwrap().render(());
+            }
+        };
+        // thread A: fresh thread, `a` renders, the capturing render, `c` renders, then the use
+        let (value, on_a) = {
+            let env = env.clone();
+            let case = case.clone();
+            std::thread::spawn(move || {
+                warm(&env, case.a);
+                let tmpl = env.get_template("t").unwrap();
+                let captured = tmpl.render_captured(()).unwrap();
+                let state = captured.state();
+                let v = match case.what % 3 {
+                    0 => state.lookup("hello"),
+                    1 => state.lookup("lib").and_then(|m| m.get_attr("greet").ok()),
+                    _ => state.lookup("ns"),
+                }
+                .unwrap_or_default();
+                drop(captured);
+                warm(&env, case.c);
+                let on_a = use_value(&env, &v);
+                (v, on_a)
+            })
+            .join()
+            .unwrap()
+        };
+        // thread B: another fresh thread with its own history
+        let on_b = {
+            let env = env.clone();
+            let v = value.clone();
+            let b = case.b;
+            std::thread::spawn(move || {
+                warm(&env, b);
+                use_value(&env, &v)
+            })
+            .join()
+            .unwrap()
+        };
+        // and the calling thread (which has rendered thousands of templates already)
+        let here = use_value(&env, &value);
+        let mut v = Verdict::pass(case.a == case.b);
+        if on_a != on_b || on_a != here {
+            v.set_fail(
+                "result_depends_on_thread_history",
+                format!("a value taken out of a finished render gives {on_a:?} on the thread that made it, {on_b:?} on a fresh thread after {} renders and {here:?} on the calling thread
+case: {case:?}", case.b),
+            );
+        }
+        v
+    }
+}
+
+crate::declare_parts!(Histories, EscapedValues);
 
 pub fn run(ctx: &mut Ctx) {
-    ctx.rule = "histories of up to 20 (thorough 28) operations over {add_template (borrowed), add_template_owned, both with sources that fail to compile, remove_template, clear_templates, set_loader (two loaders over a shared mutable in-memory store), edits of that store, add/remove filter/test/global/function (several variants), clone (continuing on the copy; the original is checked at the end), render, compile_expression} over 4 template names whose sources include / extend / import one another, fail at run time or reference missing templates. After EVERY step each name is looked up and rendered twice and compared with a freshly built environment holding what the model (explicit templates, loader-memoised templates with the source at first request, current loader, registries) says; the loader log must show no call for a stored name; at the end the final environment is rendered from 1-8 threads x 12 rounds. Non-trivial: a failing addition, a replace across the borrowed/owned stores, or a loader-store edit after first load. Distinct by history.".into();
+    ctx.rule = "histories of up to 20 (thorough 28) operations over {add_template (borrowed), add_template_owned, both with sources that fail to compile, remove_template, clear_templates, set_loader (two loaders over a shared mutable in-memory store), edits of that store, add/remove filter/test/global/function (several variants), clone (continuing on the copy; the original is checked at the end), render, compile_expression} over 4 template names whose sources include / extend / import one another, fail at run time or reference missing templates. After EVERY step each name is looked up and rendered twice and compared with a freshly built environment holding what the model (explicit templates, loader-memoised templates with the source at first request, current loader, registries) says; the loader log must show no call for a stored name; at the end the final environment is rendered from 1-8 threads x 12 rounds. Part values_outliving_their_render (144 cases, complete): a macro, an imported module's macro or a namespace taken out of a finished render through render_captured(..).state() is used in later renders on the thread that made it, on a fresh thread with 0-3 renders behind it and on the calling thread: the outcome must be the same everywhere. Non-trivial: a failing addition, a replace across the borrowed/owned stores, or a loader-store edit after first load. Distinct by history.".into();
     ctx.assumptions = vec![
         "settings that only affect templates loaded afterwards (syntax, whitespace) are not part of the histories".into(),
         "real-thread interleavings are sampled, not enumerated".into(),
     ];
     preamble(ctx);
     let t = ctx.tier;
+    ctx.run_enumerated::<EscapedValues>(EscapedValues::enumeration(t), true);
     ctx.run_part::<Histories>(t.pick(20_000, 600_000));
 }
